@@ -182,9 +182,15 @@ def pastDeadline (t : Nat) : Option Nat → Bool
   | some d => t > d
   | none => false
 
+/-- `midElement.IsExpired`, second conjunct (F30 fix): all copies are out *and* the timeout of the last one has passed
+    (`now.After(start + ackTimeout·(retransmit + lastCopyAddend))`).  Whether the code has this conjunct is the
+    regenerated `exhaustionWaitsLastTimeout`; without it exhaustion is reported by the first pass after the last copy. -/
+def lastTimeoutPassed (P : Params) (t : Nat) (e : Pend) : Bool :=
+  !exhaustionWaitsLastTimeout || decide (t > e.start + (e.n + lastCopyAddend) * P.ackTimeout)
+
 /-- `checkMidHandlerContainer` for one entry at housekeeping time `t`. -/
 def tickEntry (P : Params) (t : Nat) (e : Pend) : Option Pend × Option Entry :=
-  if pastDeadline t e.deadline || exhausted P e.n then (none, none)
+  if pastDeadline t e.deadline || (exhausted P e.n && lastTimeoutPassed P t e) then (none, none)
   else if t > e.start + (e.n + retransmitAddend) * P.ackTimeout then
     -- the copy is written; the entry stays for the answer to this copy until a later pass finds it expired
     -- (`dropsInPassOfLastCopy`: would the same pass test expiry again and drop it — regenerated from the source)
